@@ -352,6 +352,87 @@ theorem checked_iff (T : Tables) (b : Bind) (st st6 : TState) (ty : Val) (lit te
   · have : (lit == b.u) = false := by simpa using hlu
     simp only [hlu, if_false, Option.bind_none, Option.isSome_none, Bool.false_eq_true, this]
 
+/-- CHECKED IFF MEMBER — the same control bound to an ARRAY of strings: `checked` is present
+    exactly when the literal, wrapped as a member element (stripped when the member schema strips),
+    equals one of the members; the browser then posts `(array's flattened name, lit)`. -/
+theorem checked_iff_array (T : Tables) (b : Bind) (st st6 : TState) (ty : Val) (lit text : Str) (hp : Plain T st)
+    (hnd : (Dict.keys st.attrs).Nodup)
+    (hty : Dict.get? st.attrs sType = some ty)
+    (hck : (ty.eqStr "radio".toList || ty.eqStr "checkbox".toList) = true)
+    (hlit : Dict.get? st.attrs sValue = some (.text lit))
+    (strip : Bool) (ms : List (Option Str)) (hkind : b.kind = .array strip ms)
+    (hname : b.flatName ≠ [])
+    (hT1 : T.autoTag sName sInput = true) (hT2 : T.autoTag sValue sInput = true)
+    (h : transform T sInput (some b) st = .ok st6) :
+    Dict.get? st6.attrs sName = some (.text b.flatName) ∧
+    Dict.get? st6.attrs sValue = some (.text lit) ∧
+    Dict.get? st6.attrs sChecked =
+      (if ms.contains (some (if strip then T.strip lit else lit)) then some (.text sChecked) else none) ∧
+    Spec.PostsIffMatches (submittedD sInput st6.attrs text) b lit
+      (ms.contains (some (if strip then T.strip lit else lit))) := by
+  have hmatch : b.matches T (some (.text lit)) = .ok (ms.contains (some (if strip then T.strip lit else lit))) := by
+    unfold Bind.matches; rw [hkind]; rfl
+  generalize hM : ms.contains (some (if strip then T.strip lit else lit)) = M at *
+  obtain ⟨s1, s2, s3, s4, s5, h1, h2, h3, h4, h5, h6⟩ := transform_steps h
+  rw [transformName_on T sInput b st hp.nameOn hp.noNameOpt hname hp.noName hT1] at h1
+  simp only [Except.ok.injEq] at h1
+  subst h1
+  have n1 : "auto_value".toList ≠ sName := by decide
+  have n2 : sType ≠ sName := by decide
+  have n3 : sValue ≠ sName := by decide
+  have hv := transformValue_check_gen T b ⟨Dict.set st.attrs sName (.text b.flatName), st.contents, st.ctx⟩ ty (.text lit)
+      hp.valueOn (by simp only; rw [Dict.get?_set_other _ _ _ _ n1]; exact hp.noValueOpt)
+      (by simp only; rw [Dict.get?_set_other _ _ _ _ n2]; exact hty) hck
+      (by simp only; rw [Dict.get?_set_other _ _ _ _ n3]; exact hlit) M hmatch hT2
+  rw [hv] at h2
+  simp only [Except.ok.injEq] at h2
+  subst h2
+  have hl : sInput ≠ sLabel := by decide
+  have f1 := (later_frame sName (by decide) hl h3 h4 h5 h6).1
+  have f2 := (later_frame sValue (by decide) hl h3 h4 h5 h6).1
+  have f3 := (later_frame sChecked (by decide) hl h3 h4 h5 h6).1
+  have f4 := (later_frame sType (by decide) hl h3 h4 h5 h6).1
+  simp only at f1 f2 f3 f4
+  have m1 : sName ≠ sChecked := by decide
+  have m2 : sValue ≠ sChecked := by decide
+  have m3 : sType ≠ sChecked := by decide
+  have hnd1 : (Dict.keys (Dict.set st.attrs sName (Val.text b.flatName))).Nodup := Dict.nodup_set _ _ _ hnd
+  have hget : ∀ k, k ≠ sChecked → Dict.get? (toggleAttr (Dict.set st.attrs sName (Val.text b.flatName)) sChecked
+      M) k = Dict.get? (Dict.set st.attrs sName (Val.text b.flatName)) k := by
+    intro k hk
+    unfold toggleAttr
+    split
+    · exact Dict.get?_set_other _ _ _ _ hk
+    · exact Dict.get?_erase_other _ _ _ hk
+  have e1 : Dict.get? st6.attrs sName = some (.text b.flatName) := by
+    rw [f1, hget _ m1, Dict.get?_set_self]
+  have e2 : Dict.get? st6.attrs sValue = some (.text lit) := by
+    rw [f2, hget _ m2, Dict.get?_set_other _ _ _ _ n3, hlit]
+  have e4 : Dict.get? st6.attrs sType = some ty := by
+    rw [f4, hget _ m3, Dict.get?_set_other _ _ _ _ n2, hty]
+  have e3 : Dict.get? st6.attrs sChecked = (if M = true then some (.text sChecked) else none) := by
+    rw [f3]
+    unfold toggleAttr
+    cases M with
+    | true => simp [Dict.get?_set_self]
+    | false =>
+      simp only [Bool.false_eq_true, if_false]
+      exact Dict.get?_erase_self _ _ hnd1
+  refine ⟨e1, e2, e3, ?_⟩
+  have hn6 := transform_nodup hnd h
+  have hne : b.flatName.isEmpty = false := by simpa using hname
+  obtain ⟨s, hs, hs2⟩ := checkable_str ty hck
+  have hlow : asciiLower s = s := by rcases hs2 with rfl | rfl <;> decide
+  have hdec : (decide (s = "checkbox".toList) || decide (s = "radio".toList)) = true := by
+    rcases hs2 with rfl | rfl <;> decide
+  unfold Spec.PostsIffMatches submittedD submitted
+  simp only [attr?_strAttrs _ hn6, e1, e2, e3, e4, Option.bind_some, str?_text, hne, Bool.false_eq_true, if_false,
+    hs, Option.getD_some, hlow, hdec, if_true]
+  cases M with
+  | true => simp only [if_true, Option.bind_some, str?_text, Option.isSome_some]
+  | false => simp only [Bool.false_eq_true, if_false, Option.bind_none, Option.isSome_none]
+
+
 end Flatland.C12.Proofs
 
 namespace Flatland.C12.Proofs
